@@ -30,18 +30,18 @@ pub fn create(array: InstructionWithStr) -> Result<Instruction, Error> {
     .into())
 }
 
-pub fn exec(var: Variable) -> ExecResult {
+pub fn exec(var: Variable, static_type: &Type) -> ExecResult {
+    // see sum::exec: the reducer must be one that the static type of the operand admits
     let return_type = var.as_type();
-    if return_type.matches(&var_type!(() -> (bool, int))) {
-        return Ok(Variable::from(INT_PRODUCT)
-            .as_function()
-            .unwrap()
-            .exec_with_args(&[var])?);
-    }
-    Ok(Variable::from(FLOAT_PRODUCT)
-        .as_function()
-        .unwrap()
-        .exec_with_args(&[var])?)
+    let int_iter = var_type!(() -> (bool, int));
+    let float_iter = var_type!(() -> (bool, float));
+    let int_admitted = int_iter.matches(static_type) || !float_iter.matches(static_type);
+    let product = if return_type.matches(&int_iter) && int_admitted {
+        Variable::from(INT_PRODUCT)
+    } else {
+        Variable::from(FLOAT_PRODUCT)
+    };
+    Ok(product.as_function().unwrap().exec_with_args(&[var])?)
 }
 
 #[cfg(test)]
